@@ -85,6 +85,20 @@ func c14(c *ctx) {
 			}
 			if r.Intn(2) == 0 {
 				w.del(0, h.up, "markers")
+				h.dead = true
+			}
+			// keep the tables (which every observation lists) small: the oldest sessions leave
+			var live []*hsess
+			for _, x := range w.sessions {
+				if !x.dead {
+					live = append(live, x)
+				}
+			}
+			for len(live) > 12 {
+				if w.del(0, live[0].up, "markers-old").Cause == 1 {
+					live[0].dead = true
+				}
+				live = live[1:]
 			}
 		}
 		w.close()
